@@ -84,6 +84,45 @@ func init() {
 		close(stop)
 		wg.Wait()
 		time.Sleep(300 * time.Millisecond) // teardowns finish: every key must be free again
+		// a backlogged key must not delay anybody else: one terminal's writer is held in its write callback, more
+		// commands than its queue holds are sent to it, and meanwhile a command for an offline key must still be
+		// answered not-exist at once
+		{
+			ph := []byte{0x01, 0x36, 0x99, 0x99, 0x99, 0x01}
+			t := l.dial(ph, 0)
+			release := make(chan struct{})
+			var once atomic.Bool
+			hold := func(c int) {
+				if c == t.idx && !once.Swap(true) {
+					select {
+					case <-release:
+					case <-time.After(1500 * time.Millisecond):
+					}
+				}
+			}
+			l.writeHold.Store(&hold)
+			t.send(t.frame(0x0002, nil)) // joins; the reply's write callback parks the writer
+			time.Sleep(50 * time.Millisecond)
+			key := string(asciiDigits(ph))
+			var bw sync.WaitGroup
+			for i := 0; i < 6; i++ {
+				bw.Add(1)
+				go func() {
+					defer bw.Done()
+					l.sendActive(t.idx, int(kid.Add(1)), key, consts.P8104QueryTerminalParams, nil, 1200*time.Millisecond)
+				}()
+				time.Sleep(5 * time.Millisecond)
+			}
+			time.Sleep(30 * time.Millisecond)
+			for i := 0; i < 3; i++ {
+				l.sendActive(-1, int(kid.Add(1)), "13699999977", consts.P8104QueryTerminalParams, nil, 1200*time.Millisecond)
+			}
+			close(release)
+			l.writeHold.Store(nil)
+			bw.Wait()
+			t.close(false)
+			time.Sleep(100 * time.Millisecond)
+		}
 		// every key can be taken by a new connection
 		for i, ph := range phones {
 			t := l.dial(ph, 0)
